@@ -264,8 +264,20 @@ func c09World(t *testing.T, r *simcore.Run) any {
 	}
 	checked, answered := 0, 0
 	var samples []string
+	// sampled runs: the listeners have been up for a day or two when the requests arrive, so
+	// their cookies are under the key before the current one (valid for three days)
+	var keyAge time.Duration
+	if mode == "sampled" {
+		keyAge = []time.Duration{0, 0, 25 * time.Hour, 49 * time.Hour}[tp.Intn(4, "keyage")]
+	}
 	spawn("driver", func() {
 		defer r.Finish()
+		if keyAge > 0 {
+			if r.Sleep("key-age", cliNode, keyAge).Killed {
+				return
+			}
+			r.Probe("cookies-under-previous-key")
+		}
 		for i := range cases {
 			c := &cases[i]
 			if overSCION && i%12 == 0 {
@@ -289,6 +301,10 @@ func c09World(t *testing.T, r *simcore.Run) any {
 			c.srcPort = 5000
 			if mode == "sampled" && tp.Bool(1, 3, "port") {
 				c.srcPort = uint16(1 + tp.Intn(65535, "sport"))
+			} else if tp.Bool(1, 4, "well-known-port") {
+				// the decision to reply is a function of the payload, not of where it came from
+				c.srcPort = []uint16{123, 4460, 30041, 1, 65535, 319, 320, 53}[tp.Intn(8, "wkport")]
+				r.Probe("from-well-known-port")
 			}
 			src := netip.AddrPortFrom(netip.MustParseAddr(cliIP), c.srcPort)
 			d := wrap(c.payload, cliIP, c.srcPort, "crafted")
